@@ -372,3 +372,77 @@ func runS2(c *core.Ctx) {
 		}
 	}
 }
+
+func init() {
+	register(&core.Rule{ID: "S2b", Min: 1,
+		Doc: "SIMD-mode branches in the emitters are total: every `if cpu.HasAVX2` / `if !cpu.HasAVX2` inside an emitter method has both arms, and both arms write the same destination operands (a register set in one mode and left undefined in the other makes the generated code depend on the instruction-set mode).",
+		Run: runS2b})
+}
+
+func runS2b(c *core.Ctx) {
+	p := c.Prog
+	if p.GOARCH != "amd64" {
+		return
+	}
+	em := emitModel{p}
+	n := 0
+	for _, rel := range []string{"internal/encoder/x86", "internal/decoder/jitdec"} {
+		pk := p.Pkg(rel)
+		if pk == nil {
+			continue
+		}
+		for _, fd := range core.FuncDecls(pk) {
+			if fd.Body == nil || fd.Recv == nil {
+				continue
+			}
+			recv := recvObj(p, fd)
+			fn := core.FuncName(pk, fd)
+			k := 0
+			ast.Inspect(fd.Body, func(nd ast.Node) bool {
+				ifs, ok := nd.(*ast.IfStmt)
+				if !ok || !strings.Contains(exprStr(ifs.Cond), "HasAVX2") {
+					return true
+				}
+				n++
+				k++
+				cn := fn + "/avx2-branch#" + itoa(k)
+				c.Analysed(fn)
+				dests := func(b ast.Node) map[string]bool {
+					out := map[string]bool{}
+					if b == nil {
+						return out
+					}
+					ast.Inspect(b, func(m ast.Node) bool {
+						call, ok := m.(*ast.CallExpr)
+						if !ok {
+							return true
+						}
+						op, isSelf := em.classify(call, recv)
+						if isSelf && op.Kind == "Emit" && len(op.Ops) >= 1 && !nonWriting[op.Mnem] {
+							out[op.Ops[len(op.Ops)-1].String()] = true
+						}
+						return true
+					})
+					return out
+				}
+				a := dests(ifs.Body)
+				var b map[string]bool
+				if ifs.Else != nil {
+					b = dests(ifs.Else)
+				} else {
+					b = map[string]bool{}
+				}
+				onlyA, onlyB := setDiff(a, b)
+				if len(onlyA) == 0 && len(onlyB) == 0 {
+					c.OK(cn, ifs.Pos(), "both instruction-set arms define %v", sortedKeys(a))
+				} else {
+					c.Bad(cn, ifs.Pos(), "the two arms of the cpu.HasAVX2 branch do not define the same operands (only in one arm: %v / %v): the operand keeps an unrelated value in the other instruction-set mode, so results differ between AVX2 and SSE", onlyA, onlyB)
+				}
+				return true
+			})
+		}
+	}
+	if n == 0 {
+		c.Undecided("emitters/avx2-branch", token.NoPos, "no cpu.HasAVX2 branch found in the emitters")
+	}
+}
